@@ -76,6 +76,8 @@ C01Leaves(lvs, dls) ==
     <<"C01.obs_leaf_bounds", \A j \in 1..Len(lvs) : j <= Len(dls) => LeafBounds(lvs[j], dls[j])>> }
 C01Group(i) ==
   LET e == Ev(i) IN
+  IF IsStep(i) /\ e.pl THEN {}     \* C01 quantifies "up to and including the terminal step"
+  ELSE
   C01Leaves(e.lv.obs, Hdr.decl.obs_leaves)
   \cup { <<"C01.reward_member", LeafOK(e.lv.reward, Hdr.decl.reward_leaf) /\ LeafBounds(e.lv.reward, Hdr.decl.reward_leaf)>>,
          <<"C01.discount_member", LeafOK(e.lv.discount, Hdr.decl.discount_leaf) /\ LeafBounds(e.lv.discount, Hdr.decl.discount_leaf)>>,
